@@ -959,6 +959,10 @@ class SourceCatalog:
             the input ``labels``.
         """
         self._segment_img.check_labels(labels)
+        # the labels must also be in this (possibly sliced) catalog
+        missing = np.setdiff1d(np.atleast_1d(labels), self.labels)
+        if len(missing) > 0:
+            raise ValueError(f'label(s) {missing} are not in the catalog')
         sorter = np.argsort(self.labels)
         indices = sorter[np.searchsorted(self.labels, labels, sorter=sorter)]
         return self[indices]
